@@ -7,7 +7,7 @@ from core import Broken
 ID = 'C14'
 GENMODS = ['gen_store']
 TARGET = 'props/C14.vo'
-PROOF_FILES = ['proof/C14.v', 'proof/IniProofs.v', 'proof/IniFile.v', 'proof/IniFile2.v', 'proof/StoreText.v', 'props/C14.v']
+PROOF_FILES = ['proof/C14.v', 'proof/IniProofs.v', 'proof/IniFile.v', 'proof/IniFile2.v', 'proof/StoreText.v', 'proof/C14Label.v', 'props/C14.v']
 AXIOMS = []
 TRUSTED = [
     'Coq 8.16.1 kernel; vm_compute for the correspondence evaluation; no axioms',
@@ -200,6 +200,38 @@ def correspond(ctx):
             'ops_per_case': {k: sum(1 for c in cases if len(c['ovr']) + len(c['adds']) == k) for k in range(0, 7)},
             'invalid_expected': sum(1 for zs in res if zs[0] == 1), 'removals': sum(1 for c in cases for o in c['ovr'] if o[0] == 'remove'),
             'models_with_table_form': sum(1 for c in cases if any(s[0] == 'Table-Form' for s, _ in c['model']['sections']))}
+    # the command-line label (model/ItemLabel.v) against _create_override_tuple: generated SECTION:KEY=VALUE texts (every section / key
+    # spelling of the generator, values with ':' and '='), the same without a value, and strings over the significant characters
+    items = []
+    for c in cases[:40]:
+        for s_, es in c['model']['sections']:
+            for e in es[:2]:
+                lab = '%s:%s' % (sc.sect_name(tuple(s_)), sc.key_text(tuple_key(e['key']), rng.randint(0, 4)))
+                items += [(lab + '=' + rng.choice([e['val'], 'a:b', 'x=y:z', '>=2.0 as.zero', '${Variables:rho}', '']), True), (lab, False)]
+    for _ in range(150): items.append((''.join(rng.choice('Tab-le:Form= x') for _ in range(rng.randint(0, 14))), rng.random() < 0.5))
+    items += [('Table-Form:tb:x=1:2', True), (' Table-Form :tb:x', False), ('Table-Form:tb=3', True), ('Pair:A-B', True), ('NoColon=1', True), ('Table-Form:a:b:c=d', True)]
+    items = [(t, hv) for (t, hv) in items if all(ord(ch) < 128 for ch in t)]
+    PRE_LAB = 'From Coq Require Import List ZArith.\nFrom V Require Import lib.Common model.Ini model.ItemLabel.\nImport ListNotations.\nLocal Open Scope Z_scope.\n' \
+              'Definition enc_s (s : list Z) : list Z := Z.of_nat (length s) :: s.\n' \
+              'Definition run_label (t : list Z) (hv : bool) : list Z := match override_tuple t hv with None => [0] | Some (s, k, v) => 1 :: enc_s s ++ enc_s k ++ match v with Some x => 1 :: enc_s x | None => [0] end end.\n'
+    lres = sc.eval_results('C14l', PRE_LAB, ['(run_label [%s] %s)' % ('; '.join('%d' % ord(ch) for ch in t), 'true' if hv else 'false') for (t, hv) in items], chunk=100)
+    from atsim.potentials.tools.potable import _create_override_tuple
+    def dec_lab(zs):
+        if zs[0] == 0: return None
+        i = 1; out = []
+        for _ in range(2):
+            n = zs[i]; out.append(''.join(chr(x) for x in zs[i + 1:i + 1 + n])); i += 1 + n
+        if zs[i] == 1: n = zs[i + 1]; out.append(''.join(chr(x) for x in zs[i + 2:i + 2 + n]))
+        else: out.append(None)
+        return tuple(out)
+    nlab = 0
+    for (t, hv), zs in zip(items, lres):
+        want = dec_lab(zs)
+        try: o = _create_override_tuple(t, hv); got = (o.section, o.key, o.value)
+        except ValueError: got = None
+        nlab += want is not None
+        if want != got: dis.append({'case': {'kind': 'store_text', 'item': t, 'has_value': hv}, 'what': 'the item text %r (value expected: %s) is read as %r by the model and as %r by potable' % (t, hv, want, got)})
+    dist.update({'item_labels': len(items), 'item_labels_split': nlab})
     # down to characters (proof/StoreText.v, c14_edited_file_text): the hand-edited files, printed, against the raw parser
     edited = [m for m in (hand_edit(c['model'], ops_in_order(c)) for c in cases) if m is not None]
     tdis, tstats = sc.check_store_text(edited[:(120 if ctx['thorough'] else 30)], 'C14t'); dis += tdis; dist.update(tstats)
